@@ -495,6 +495,46 @@ func c12GenPipe(g *Gen) {
 		b.batches()
 		emit("pipe-pool-1024", pc)
 	}
+	// (d') recycling stress: many pooled records of two size classes, tiny batches, repeats, no forced GC: nearly every
+	// record after the first runs on a recycled struct and a recycled buffer holding another record's bytes
+	for i := 0; i < g.Pick(60, 1500); i++ {
+		b := c12NewPipe(r)
+		pc := b.pc
+		pc.GC = 0
+		pc.MinPool = r.PickInt([]int{48, 64})
+		pc.MaxMsg, pc.MaxRec = 400, 500
+		pc.Extract = b.prog(1, 2, true)
+		pc.Transforms = b.prog(0, 5, true)
+		b.outputs()
+		la, lb := r.Range(70, 120), r.Range(130, 250)
+		var pool [][]byte
+		for j, n := 0, r.Range(8, 18); j < n; j++ {
+			switch {
+			case len(pool) > 1 && r.Chance(1, 3):
+				b.addRecord(pool[r.Intn(len(pool))])
+			case r.Chance(1, 10):
+				b.addRecord(b.malformed())
+			default:
+				l := la
+				if r.Bool() {
+					l = lb
+				}
+				in := b.record(l+r.Range(-3, 3), r.Chance(1, 5))
+				pool = append(pool, in)
+				b.addRecord(in)
+			}
+		}
+		left := len(pc.Inputs)
+		for left > 0 {
+			sz := r.PickInt([]int{1, 1, 1, 2})
+			if sz > left {
+				sz = left
+			}
+			pc.Batches = append(pc.Batches, sz)
+			left -= sz
+		}
+		emit("pipe-recycle", pc)
+	}
 	// (e) smallest legal records, every length 32..40, against longer neighbours
 	{
 		b := c12NewPipe(r)
